@@ -91,7 +91,7 @@ func init() {
 			return c03SeqCases() + vlib.TierN(tier, 160, 48000)
 		},
 		Rule: "sequential part: every op sequence over {Ack,Nack,Acked?,Nacked?} of length 0..8 (87381 sequences) on 5 message kinds " +
-			"(NewMessage, Copy of unsettled/acked/nacked, zero value), checked step by step against the 3-state model (exhaustive, counter seq_sequences); " +
+			"(NewMessage, Copy of unsettled/acked/nacked, zero value), checked step by step against the 3-state model, once with both channels observed after every step and once with no reads but the sequence's own (exhaustive, counter seq_sequences); " +
 			"concurrent part: batches of 40 histories of 2..16 goroutines x 1..4 ops on one shared message (NewMessage, Copy, zero value, zero value settled by one earlier call, Copy taken while four goroutines hammer Ack/Nack on the source) with Gosched injection, each history checked " +
 			"with porcupine against the same model. A concurrent case is non-trivial when operations of different goroutines overlapped in logical time and " +
 			"both Ack and Nack were attempted; distinct = distinct (kind, observed history) hashes; a sequential case is non-trivial always, distinct per (kind, block).",
@@ -133,20 +133,27 @@ func c03Seq(e *vlib.Env) vlib.Result {
 		var rec func()
 		check := func() {
 			if seqNo%c03SeqBlocks == block {
-				m := c03Make(kind)
-				st := 0
-				for i, op := range ops {
-					want, next := c03Step(st, op)
-					got := c03Apply(m, op)
-					st = next
-					a, n := vlib.IsClosed(m.Acked()), vlib.IsClosed(m.Nacked())
-					if got != want || a != (st == 1) || n != (st == 2) {
-						mu.Lock()
-						if failure == "" {
-							failure = fmt.Sprintf("kind=%s seq=%v step=%d op=%s returned %v want %v; acked-closed=%v nacked-closed=%v model-state=%d", kind, opsStr(ops), i, c03OpNames[op], got, want, a, n, st)
+				// each sequence runs twice: with both channels observed after every step, and with no reads other than the
+				// sequence's own (observing the channels is itself an operation on a message built without the constructor)
+				for _, observe := range []bool{true, false} {
+					m := c03Make(kind)
+					st := 0
+					for i, op := range ops {
+						want, next := c03Step(st, op)
+						got := c03Apply(m, op)
+						st = next
+						a, n := st == 1, st == 2
+						if observe || i == len(ops)-1 {
+							a, n = vlib.IsClosed(m.Acked()), vlib.IsClosed(m.Nacked())
 						}
-						mu.Unlock()
-						return
+						if got != want || a != (st == 1) || n != (st == 2) {
+							mu.Lock()
+							if failure == "" {
+								failure = fmt.Sprintf("kind=%s seq=%v step=%d op=%s returned %v want %v; acked-closed=%v nacked-closed=%v model-state=%d", kind, opsStr(ops), i, c03OpNames[op], got, want, a, n, st)
+							}
+							mu.Unlock()
+							return
+						}
 					}
 				}
 				mu.Lock()
